@@ -213,7 +213,7 @@ int KSI_PKITruststore_verifyRawSignature(KSI_CTX *ctx, const unsigned char *data
 		const unsigned char *signature, size_t signature_len, const KSI_PKICertificate *cert) {
 	g_c04_pki_calls++;
 	g_c04_pki_args_ok = (ctx == &g_c04_ctx && data != NULL && data == g_c04_ser_buf && data_len == g_c04_ser_len && g_c04_ser_tlv == g_c04_carPub.baseTlv
-			&& algoOid == g_c04_sigType.value && signature == g_c04_sigValue.data && signature_len == g_c04_sigValue.data_len && cert == C04_CERT);
+			&& algoOid == (g_c04_psd.sig_type != NULL ? g_c04_psd.sig_type->value : NULL) && signature == g_c04_sigValue.data && signature_len == g_c04_sigValue.data_len && cert == C04_CERT);
 	return g_c04_pki_res;
 }
 
@@ -330,6 +330,18 @@ static void c04_world_build(void) {
 	g_c04_ser_res = c04_any_status(); g_c04_ser_buf = NULL; g_c04_ser_len = 0; g_c04_ser_tlv = NULL;
 	g_c04_pki_res = c04_any_status(); g_c04_pki_calls = 0; g_c04_pki_args_ok = 0;
 	g_c04_ext = nondet_int();
+}
+
+/* Mandatory elements of parsed objects (TLV templates of tlv_template.c: calendar chain 0x01 pub_time, aggregation chain 0x02
+ * aggr_time carry KSI_TLV_TMPL_FLG_MANDATORY; the tables are checked by C10).  KSI_Integer_compare treats two missing values
+ * as equal, so the time rules are only meaningful for objects that have them. */
+static _Bool c04_wf_times(void) {
+	return g_c04_sigCal.publicationTime != NULL && g_c04_extCal.publicationTime != NULL && g_c04_aggr0.aggregationTime != NULL;
+}
+/* calendar chain 0x05 input_hash and publication data 0x04 imprint are mandatory too: KSI_DataHash_equals treats a missing
+ * operand as "different", which would turn a malformed object into a contradiction */
+static _Bool c04_wf_hashes(void) {
+	return g_c04_extCal.inputHash != NULL && g_c04_filePubData.imprint != NULL && g_c04_fileRec.publishedData != NULL;
 }
 
 /* no leak, no dangling handle: checked in every rule's postcondition */
